@@ -175,6 +175,9 @@ fn strs() -> Vec<String> {
     let mut v: Vec<String> = BLOB_LENS.iter().map(|&n| text(n, 1)).collect();
     v.push("a\0b".to_string());
     v.push("é".to_string());
+    // (appended: indices above are recorded in witnesses) lengths around the 64 KiB chunk of DataInput::read_vec
+    v.push(text(65536, 1));
+    v.push(text(65537, 1));
     v
 }
 
